@@ -48,7 +48,7 @@ class PathValidateListsSize(Contract):
             return ok
         return [Case("sizes", [p], post, pre=pre, heap=heap, symbols=dict(n_segments=ns, n_overlaps=no), minimize=[ns, no],
                      replay=lambda w: {"target": "bounded.replay_helpers:path_list_sizes", "args": [w["n_segments"], w["n_overlaps"], "validate"]},
-                     confirm=lambda w, out: out.get("kind") != "return" or out.get("value") is not True)]
+                     confirm=battery_confirm)]
 
 
 @register
@@ -87,4 +87,4 @@ class PathRequiredLinks(Contract):
         return [Case("links", [p], post, pre=pre, heap=heap, zh=h0, invariants=inv, models=models, inline=inline,
                      options=dict(alloc_lists=True, opaque_elems=True), symbols=dict(n_segments=ns, n_overlaps=no), minimize=[ns, no],
                      replay=lambda w: {"target": "bounded.replay_helpers:path_list_sizes", "args": [w.get("n_segments", 0), w.get("n_overlaps", 0), "links"]},
-                     confirm=lambda w, out: out.get("kind") != "return" or out.get("value") is not True)]
+                     confirm=battery_confirm)]
